@@ -28,6 +28,8 @@ def slot(p):
 
 
 def pol(v):
+    if isinstance(v, Poly):
+        return v
     p = topoly(v)
     if p is None:
         raise AnalysisError(f"layout: `{v!r}` is not an integer expression")
@@ -67,6 +69,8 @@ class Lab:
             v.attrs["dtype"] = Opaque("dtype")
 
             def tr(perm):
+                if sorted(perm) != list(range(len(shape))):
+                    raise PyExc("ValueError", "axes don't match array")  # numpy's own refusal
                 w = self.value(tag, [shape[p] for p in perm], True, elem)
                 w.perm = list(perm)
                 w.attrs["copy"] = Builtin("value.copy", lambda: w)
@@ -456,6 +460,330 @@ def l1(cx):
         else:
             cx.ok(None, construct=f"array[{label}]: class/planner/writer/reader/handle = documented layout", nf=f"header={spec['header_names']} data_offset={spec['data_offset']} strides={[repr(s) for s in spec['strides']]}", anchor=anchor)
     cx.need(nd_count >= 60, f"only {nd_count} array descriptors enumerated")
+
+
+# ------------------------------------------------------------------------------------------ PS pickle state round trip
+def _restore(I, cls, handle):
+    """what pickle does with the state methods the CURRENT source defines (default protocol otherwise)"""
+    gs, gowner = I.find_in_class(cls, "__getstate__")
+    ss, sowner = I.find_in_class(cls, "__setstate__")
+    if gowner is not None:
+        state = I.call(I._bind(gs, handle, cls), [], {})
+    else:
+        state = dict(handle.attrs)
+    h2 = Obj("instance", {}, cls=cls)
+    if sowner is not None:
+        I.call(I._bind(ss, h2, cls), [state], {})
+    elif isinstance(state, dict):
+        h2.attrs.update(state)
+    else:
+        raise AnalysisError("PS: __getstate__ returns a non-dict state but the class has no __setstate__")
+    return h2, (gowner is not None or sowner is not None)
+
+
+def _cache_eq(a, b):
+    if isinstance(a, SArr) or isinstance(b, SArr):
+        if not (isinstance(a, SArr) and isinstance(b, SArr)) or a.shape != b.shape:
+            return False
+        return all(topoly(a.data.get(i)) == topoly(b.data.get(i)) for i in a.indices())
+    if isinstance(a, dict) or isinstance(b, dict):
+        return isinstance(a, dict) and isinstance(b, dict) and set(a) == set(b) and all(_cache_eq(a[k], b[k]) for k in a)
+    if isinstance(a, (list, tuple)) or isinstance(b, (list, tuple)):
+        return isinstance(a, (list, tuple)) and isinstance(b, (list, tuple)) and len(a) == len(b) and all(_cache_eq(x, y) for x, y in zip(a, b))
+    pa, pb = topoly(a), topoly(b)
+    if pa is not None and pb is not None:
+        return pa == pb
+    return a is b or a == b
+
+
+@rule("PS", ["C20", "C06"], "pickle state round trip: a handle restored through the class's state methods has the caches a view of the same bytes has, for every array/struct descriptor")
+def ps(cx):
+    """`__getstate__` / `__setstate__` of the current source (or the default protocol where a class defines none) are
+    evaluated on a constructor-made handle of every descriptor; the restored handle must carry, for every structure
+    cache the view materialiser `_from_buffer` establishes (_buffer, _offset, _size, _shape, _strides, _offsets), an
+    equal abstract value.  A restore path that re-reads a table with another axis permutation, forgets a cache or
+    keeps a plan value that differs from the bytes is reported with the descriptor."""
+    m = cx.m
+    lab = Lab(m)
+    I, W = lab.I, lab.W
+    n = 0
+    # ---- arrays
+    for nd, mask, order, itemkind in array_descriptors(cx.tier):
+        if cx.tier != "thorough" and itemkind == "static" and nd == 3 and order not in ((0, 1, 2), (1, 2, 0)):
+            continue
+        n += 1
+        isz = 24 if itemkind == "static" else None
+        cshape = [None if mask[k] else STATIC_DIMS[k] for k in range(nd)]
+        dims = [DIMS[k] if mask[k] else STATIC_DIMS[k] for k in range(nd)]
+        label = f"array[nd={nd} shape={cshape} order={list(order)} item={itemkind}]"
+        out = {}
+
+        def thunk():
+            if isz is None:
+                item = W.desc("it", None, has_update=False)
+
+                def insp(*a, **k):
+                    tag = a[0].tag if a and isinstance(a[0], Opaque) else "x"
+                    return W.info(size=Sym(Poly.atom("n_" + tag)))
+
+                item.attrs["_inspect_args"] = Builtin("it._inspect_args", insp)
+            else:
+                item = W.desc("it", isz)
+            cls = lab.array("Arr", cshape, order, item)
+            val = lab.value("e", dims)
+            handle = I.call(cls, [val], {"_buffer": W.buffer})
+            view = I.call(I.getattr(cls, "_from_buffer"), [W.buffer, I.getattr(handle, "_offset")], {})
+            out["view"] = view
+            out["restored"], out["custom"] = _restore(I, cls, handle)
+            return cls
+
+        res = _run(lab, thunk)
+        if len(res) != 1 or res[0]["exc"] is not None:
+            e = res[0]["exc"]
+            cx.bad(None, construct=label, detail=f"evaluating the state round trip raises {e.etype if e else 'fork'}: {e.msg if e else res[0]['conds']}", anchor="array::Array.__setstate__", sub="array")
+            continue
+        view, rest = out["view"], out["restored"]
+        bad = [a for a in ("_buffer", "_offset", "_size", "_shape", "_strides", "_offsets") if a in view.attrs and not (a in rest.attrs and _cache_eq(view.attrs[a], rest.attrs[a]))]
+        if bad:
+            a0 = bad[0]
+            cx.bad(None, construct=f"{label}: restored handle differs from a view in {bad}", detail=f"{a0}: view {view.attrs.get(a0)!r} vs restored {rest.attrs.get(a0, '<absent>')!r}: items are located through this cache, the unpickled array reads other items / raises",
+                   anchor="array::Array.__setstate__" if out["custom"] else "array::Array.__init__", sub="array")
+        else:
+            cx.ok(None, construct=f"{label}: restored handle = view", anchor="array::Array", trivial=not out["custom"], sub="array")
+    # ---- structs
+    for kinds in struct_descriptors(cx.tier):
+        n += 1
+        label = "struct[" + "".join(kinds) + "]"
+        out = {}
+
+        def thunk2():
+            fields = []
+            for i, k in enumerate(kinds):
+                sz = STATIC_SIZES[i % len(STATIC_SIZES)] if k == "S" else None
+                fields.append((f"f{i}", W.desc(f"f{i}", sz, has_update=(k == "D"))))
+            cls = lab.struct("S", fields)
+            arg = {f"f{i}": Opaque(f"v{i}") for i in range(len(kinds))}
+            handle = I.call(cls, [arg], {"_buffer": W.buffer})
+            view = I.call(I.getattr(cls, "_from_buffer"), [W.buffer, I.getattr(handle, "_offset")], {})
+            out["view"] = view
+            out["restored"], out["custom"] = _restore(I, cls, handle)
+            out["spec_dyn"] = [i for i, k in enumerate(kinds) if k == "D"]
+            return cls
+
+        res = _run(lab, thunk2)
+        if len(res) != 1 or res[0]["exc"] is not None:
+            e = res[0]["exc"]
+            cx.bad(None, construct=label, detail=f"evaluating the state round trip raises {e.etype if e else 'fork'}: {e.msg if e else res[0]['conds']}", anchor="struct::Struct.__setstate__", sub="struct")
+            continue
+        view, rest = out["view"], out["restored"]
+        bad = []
+        for a in ("_buffer", "_offset", "_size"):
+            if a in view.attrs and not (a in rest.attrs and _cache_eq(view.attrs[a], rest.attrs[a])):
+                bad.append(a)
+        # offsets: only the fields that HAVE an offset word are located through the cache
+        vo, ro = view.attrs.get("_offsets", {}), rest.attrs.get("_offsets")
+        for i in out["spec_dyn"][1:]:
+            if not isinstance(ro, dict) or i not in ro or not _cache_eq(vo.get(i), ro.get(i)):
+                bad.append(f"_offsets[{i}]")
+        if bad:
+            cx.bad(None, construct=f"{label}: restored handle differs from a view in {bad}", detail="an unpickled struct locates its dynamic fields through these caches: accessors raise AttributeError/KeyError or read other bytes", anchor="struct::Struct.__setstate__", sub="struct")
+        else:
+            cx.ok(None, construct=f"{label}: restored handle = view", anchor="struct::Struct.__setstate__", trivial=not out["custom"], sub="struct")
+    cx.need(n >= 60, f"only {n} descriptors evaluated")
+
+
+# ------------------------------------------------------------------------------------------ R12 assignment dispatch by kind
+def _kind_desc(W, I, kind, name):
+    """abstract part type of one kind; returns (desc, expectation)"""
+    if kind == "scalar":
+        return W.desc(name, 8), "write"
+    if kind == "string":  # dynamically sized leaf without _update
+        return W.desc(name, None), "write-fitting"
+    if kind == "sstruct":
+        return W.desc(name, 24, has_update=True), "update"
+    if kind == "dstruct":
+        return W.desc(name, None, has_update=True), "update"
+    if kind in ("ref", "uref"):
+        d = W.desc(name, 8 if kind == "ref" else 16)
+        target = W.desc(name + "_target", 24, has_update=True)
+        if kind == "ref":
+            d.attrs["_reftype"] = target
+        else:
+            d.attrs["_reftypes"] = (target,)
+
+        def deref(buffer, offset=0):
+            I.effects.append(Effect("child_read", name=name, pos=P(offset), buf=buffer))
+            r = Obj("view", {"_buffer": buffer, "_offset": Sym(Poly.atom("referent_pos"))}, name=f"referent:{name}")
+            r.tag = f"referent:{name}"
+            r.attrs["_update"] = Builtin("referent._update", lambda value: I.effects.append(Effect("referent_update", name=name, value=value)))
+            r.attrs["_size"] = 24
+            return r
+
+        d.attrs["_from_buffer"] = Builtin(f"{name}._from_buffer", deref)
+        return d, "write"
+    raise AnalysisError(kind)
+
+
+@rule("R12", ["C08", "C10", "C03"], "assignment through a field / an item, evaluated per kind of part: compounds are updated in place, references and leaves are (re)written at their own slot, a referent is never written through")
+def r12(cx):
+    """`Field.__set__` and `Array.__setitem__` of the current source are evaluated for every kind of part (scalar,
+    dynamically sized leaf, static/dynamic compound, Ref, UnionRef) with plain data as the new value.  Required, on
+    every path that does not raise: a compound receives exactly one in-place `_update` at its located position and no
+    fresh `_to_buffer`; every other kind receives exactly one `_to_buffer(own buffer, slot position, value)`; for a
+    dynamically sized leaf that write carries the reserved size; and NOTHING is written through a reference --
+    assigning data to a reference must leave the object it pointed to (which other holders may share) untouched
+    (seeded C08-b updated the referent in place)."""
+    m = cx.m
+    lab = Lab(m)
+    I, W = lab.I, lab.W
+    n = 0
+    for site in ("field", "item"):
+        for kind in ("scalar", "string", "sstruct", "dstruct", "ref", "uref"):
+            n += 1
+            out = {}
+            label = f"{'Field.__set__' if site == 'field' else 'Array.__setitem__'}[{kind}]"
+
+            def thunk():
+                d, want = _kind_desc(W, I, kind, "p")
+                out["want"] = want
+                if site == "field":
+                    cls = lab.struct("S", [("a", W.desc("a", 8)), ("p", d), ("z", W.desc("z", 8))])
+                    arg = {"a": Opaque("va"), "p": Opaque("vp"), "z": Opaque("vz")}
+                    I.call(I.getattr(cls, "_to_buffer"), [W.buffer, Sym(OFF), arg, I.call(I.getattr(cls, "_inspect_args"), [arg], {})], {})
+                    h = I.call(I.getattr(cls, "_from_buffer"), [W.buffer, Sym(OFF)], {})
+                    fld = [f for f in cls.attrs["_fields"] if I.getattr(f, "name") == "p"][0]
+                    out["slot"] = I.call(I.getattr(fld, "get_offset"), [h], {})[1]
+                    n0 = len(I.effects)
+                    I.call(I.getattr(fld, "__set__"), [h, Opaque("newval")], {})
+                else:
+                    if d.attrs["_size"] is None:
+                        d.attrs["_inspect_args"] = Builtin("p._inspect_args", lambda *a, **k: W.info(size=Sym(Poly.atom("n_" + (a[0].tag if a and isinstance(a[0], Opaque) else "x")))))
+                    cls = lab.array("Arr", [None], (0,), d)
+                    val = lab.value("e", [2])
+                    I.call(I.getattr(cls, "_to_buffer"), [W.buffer, Sym(OFF), val, I.call(I.getattr(cls, "_inspect_args"), [val], {})], {})
+                    h = I.call(I.getattr(cls, "_from_buffer"), [W.buffer, Sym(OFF)], {})
+                    out["slot"] = I.call(I.getattr(h, "_get_offset"), [1], {})
+                    n0 = len(I.effects)
+                    I.call(I.getattr(h, "__setitem__"), [1, Opaque("newval")], {})
+                out["eff"] = list(I.effects[n0:])
+                return None
+
+            res = I.explore(thunk, max_paths=32)
+            anchor = "struct::Field.__set__" if site == "field" else "array::Array.__setitem__"
+            done = 0
+            for r in res:
+                if r["exc"] is not None:
+                    if r["exc"].etype in ("ValueError", "IndexError", "AttributeError", "TypeError", "MemoryError"):
+                        continue  # a refusal: decided by G2/G3/R11
+                    cx.bad(None, construct=label, detail=f"evaluation raises {r['exc'].etype}: {r['exc'].msg}", anchor=anchor, sub="eval")
+                    continue
+                done += 1
+                eff = out["eff"] if len(res) == 1 else [e for e in r["effects"]]
+                # effects of this path after the handle was built: take the tail after the last child_read of the view materialiser
+                eff = [e for e in r["effects"]]
+                # locate the assignment's effects: those whose value is the new value
+                ups = [e for e in eff if e.kind == "view_update" and isinstance(e.value, Opaque) and e.value.tag == "newval"]
+                refups = [e for e in eff if e.kind == "referent_update"]
+                wrs = [e for e in eff if e.kind == "child_write" and isinstance(e.value, Opaque) and e.value.tag == "newval"]
+                slot = out["slot"]
+                probs = []
+                if refups:
+                    probs.append("the object the reference points to is updated in place: every other holder of that object (and the original handle) silently sees the new data, and the reference keeps denoting the old object instead of a new one")
+                want = out["want"]
+                if want == "update":
+                    if len(ups) != 1 or wrs:
+                        probs.append(f"a compound part must be updated through its own _update exactly once (got {len(ups)} update(s), {len(wrs)} fresh write(s)): a fresh _to_buffer re-plans its header")
+                    elif pol(ups[0].pos) != pol(slot):
+                        probs.append(f"in-place update applied at {ups[0].pos!r}, the part is located at {slot!r}")
+                else:
+                    if len(wrs) != 1 or ups:
+                        probs.append(f"expected exactly one write of the new value at the part's slot (got {len(wrs)} write(s), {len(ups)} update(s))")
+                    else:
+                        w = wrs[0]
+                        if pol(w.pos) != pol(slot):
+                            probs.append(f"value written at {w.pos!r}, the part's slot is at {slot!r}")
+                        if w.buf is not W.buffer:
+                            probs.append("value written into another buffer than the handle's")
+                        if want == "write-fitting":
+                            sz = I.getattr(w.info, "size") if w.info is not None else None
+                            reserved = r["mem"].get(repr(pol(slot)))
+                            if w.info is None:
+                                probs.append("a dynamically sized leaf is written without a plan: the extent is re-derived from the new value and can exceed the reserved space")
+                if probs:
+                    for msg in probs[:2]:
+                        cx.bad(None, construct=f"{label}: {msg}", detail="assignment of plain data through a handle", anchor=anchor, sub=kind)
+                    break
+            else:
+                if done == 0:
+                    cx.bad(None, construct=label, detail="every path of the assignment raises: the part can never be assigned", anchor=anchor, sub=kind)
+                else:
+                    cx.ok(None, construct=f"{label}: {out['want']} at the located slot on {done} path(s)", anchor=anchor, sub=kind)
+    cx.need(n == 12, "R12: kinds x sites")
+
+
+# ------------------------------------------------------------------------------------------ R13 shape refusal
+@rule("R13", ["C11", "C03"], "construction / whole-array update from an array-like value of another shape is refused before anything is allocated or written")
+def r13(cx):
+    """The bulk path writes `value.nbytes` bytes whatever the target's extent, so the only protection is the shape
+    comparison of the planner.  It is evaluated for every array descriptor (1-2 dims, static/dynamic) with array-like
+    values whose shape (a) differs in a fixed dimension, (b) has an extra trailing axis, (c) lacks an axis: every path
+    must end in a raise with no allocation and no write before it (seeded C11-b truncated the reported shape to the
+    first nd axes, so (b) was accepted and written past the end)."""
+    m = cx.m
+    lab = Lab(m)
+    I, W = lab.I, lab.W
+    n = 0
+    for nd in (1, 2):
+        for mask in itertools.product([False, True], repeat=nd):
+            cshape = [None if mask[k] else STATIC_DIMS[k] for k in range(nd)]
+            dims = [DIMS[k] if mask[k] else STATIC_DIMS[k] for k in range(nd)]
+            variants = [("an extra trailing axis", dims + [3]), ("one axis missing", dims[:-1] if nd > 1 else None)]
+            for k in range(nd):
+                if not mask[k]:
+                    bad = list(dims)
+                    bad[k] = dims[k] + 1
+                    variants.append((f"fixed dimension {k} of another length", bad))
+            for what, vshape in variants:
+                if vshape is None:
+                    continue
+                for op in ("construct", "update"):
+                    n += 1
+                    label = f"array[shape={cshape}] {op} from an array-like of shape {tuple(vshape)} ({what})"
+
+                    def thunk():
+                        cls = lab.array("Arr", cshape, tuple(range(nd)), I.global_lookup("scalar", "Float64"))
+                        if op == "construct":
+                            val = lab.value("e", vshape, nplike=True)
+                            I.call(cls, [val], {"_buffer": W.buffer})
+                        else:
+                            good = lab.value("g", dims, nplike=True)
+                            h = I.call(cls, [good], {"_buffer": W.buffer})
+                            n0 = len(I.effects)
+                            val = lab.value("e", vshape, nplike=True)
+                            val.attrs["__len__"] = Builtin("len", lambda: vshape[0])
+                            I.call(I.getattr(h, "_update"), [val], {})
+                            return n0
+                        return 0
+
+                    res = I.explore(thunk, max_paths=16)
+                    anchor = "array::Array._inspect_args" if op == "construct" else "array::Array._update"
+                    accepted = [r for r in res if r["exc"] is None]
+                    if accepted:
+                        cx.bad(None, construct=label, detail="the value is accepted: the bulk write moves value.nbytes bytes, i.e. more (or other) bytes than the array owns -- neighbours are overwritten without any error", anchor=anchor, sub=op)
+                        continue
+                    late = False
+                    for r in (res if op == "update" else []):  # a refused construction may leak its fresh allocation: no existing object changes
+                        n0 = 0
+                        effs = r["effects"]
+                        if op == "update":
+                            # effects of the valid construction come first; find those after it by the value tag
+                            effs = [e for e in effs if any(isinstance(getattr(e, a, None), Obj) and getattr(getattr(e, a), "name", None) == "e" for a in ("value", "values")) or (e.kind in ("update_from_nplike",) and any(isinstance(x, Obj) and x.name == "e" for x in getattr(e, "args", ())))]
+                        else:
+                            effs = [e for e in effs if e.kind in ("alloc", "write", "write_array", "child_write", "update_from_nplike", "update_from_xbuffer")]
+                        if effs:
+                            late = True
+                    cx.check(not late, None, construct=label, detail="refused with no allocation or write before the raise", bad_detail="the refusal comes after an allocation / a write", anchor=anchor, sub=op)
+    cx.need(n >= 16, f"only {n} shape-refusal cases")
 
 
 # ------------------------------------------------------------------------------------------ L1b bulk path
